@@ -68,50 +68,64 @@ Proof. intros H Hx. rewrite forallb_forall in H. apply H. exact Hx. Qed.
 
 (* ---------- first byte of an encoding ---------- *)
 Definition fb_ok (s : schema) (bs : bytes) : Prop :=
-  exists b t, bs = b :: t /\ match first_major s with Some m => b / 32 = m | None => True end.
+  exists b t, bs = b :: t /\ (forall m, first_major s = Some m -> b / 32 = m) /\
+              (may_start7 s = false -> b / 32 <> 7).
 
-Lemma fb_head s m n t : first_major s = Some m -> fb_ok s (encode_head m n ++ t).
+Lemma fb_head s m n t : first_major s = Some m -> m <> 7 -> fb_ok s (encode_head m n ++ t).
 Proof.
-  intros Hs. destruct (encode_head_major m n) as (b & t' & -> & Hb).
-  exists b, (t' ++ t). rewrite Hs. split; [reflexivity|exact Hb].
+  intros Hs H7. destruct (encode_head_major m n) as (b & t' & -> & Hb).
+  exists b, (t' ++ t). rewrite Hs. split; [reflexivity|]. split; [intros m' E; injection E as <-; exact Hb|].
+  intros _. rewrite Hb. exact H7.
 Qed.
-
-Lemma fb_head0 s m n : first_major s = Some m -> fb_ok s (encode_head m n).
-Proof. intros H. rewrite <- (app_nil_r (encode_head m n)). apply fb_head. exact H. Qed.
+Lemma fb_head0 s m n : first_major s = Some m -> m <> 7 -> fb_ok s (encode_head m n).
+Proof. intros H H7. rewrite <- (app_nil_r (encode_head m n)). apply fb_head; assumption. Qed.
 
 Definition FB (s : schema) : Prop := wfs s = true -> forall v, wfv s v = true -> fb_ok s (enc s v).
 Definition FBv (alts : vlist) : Prop :=
   forall i l, wfv_vl alts i l = true -> exists b t, enc_vl alts i l = b :: t /\ b / 32 = 4.
 Definition FBc (alts : clist) : Prop :=
   forall tagged, wfs_cl tagged alts = true -> forall i v, wfv_cl alts i v = true ->
-  exists b t, enc_cl tagged alts i v = b :: t /\ (tagged = true -> b / 32 = 6).
+  exists b t, enc_cl tagged alts i v = b :: t /\ (tagged = true -> b / 32 = 6) /\
+              (tagged = false -> has_disc (b / 32) alts = true).
 
 Lemma first_byte_all :
   (forall s, FB s) /\ (forall fs : slist, True) /\ (forall fs : klist, True) /\ (forall a, FBv a) /\ (forall a, FBc a).
 Proof.
   apply schema_mutind; unfold FB, FBv, FBc; try (intros; exact I).
-  - (* SUint *) intros bits _ v Hv. destruct v; try discriminate. apply (fb_head0 (SUint bits) 0 n). reflexivity.
-  - intros _ v Hv. destruct v; try discriminate. apply (fb_head0 SNint 1 n). reflexivity.
-  - intros lo hi _ v Hv. destruct v; try discriminate. apply (fb_head (SBytes lo hi) 2). reflexivity.
-  - intros hi _ v Hv. destruct v; try discriminate. apply (fb_head (SText hi) 3). reflexivity.
-  - intros _ v Hv. destruct v; try discriminate. destruct b; eexists _, _; split; reflexivity.
-  - intros fs _ _ v Hv. destruct v; try discriminate. apply (fb_head (SArr fs) 4). reflexivity.
-  - intros fs _ _ v Hv. destruct v; try discriminate. apply (fb_head (SMap fs) 5). reflexivity.
+  - (* SUint *) intros bits _ v Hv. destruct v; try discriminate. apply (fb_head0 (SUint bits) 0 n); [reflexivity|lia].
+  - intros _ v Hv. destruct v; try discriminate. apply (fb_head0 SNint 1 n); [reflexivity|lia].
+  - intros lo hi _ v Hv. destruct v; try discriminate. apply (fb_head (SBytes lo hi) 2); [reflexivity|lia].
+  - intros hi _ v Hv. destruct v; try discriminate. apply (fb_head (SText hi) 3); [reflexivity|lia].
+  - intros _ v Hv. destruct v; try discriminate.
+    destruct b; eexists _, _; (split; [reflexivity|]); (split; [intros m E; injection E as <-; reflexivity|discriminate]).
+  - intros fs _ _ v Hv. destruct v; try discriminate. apply (fb_head (SArr fs) 4); [reflexivity|lia].
+  - intros fs _ _ v Hv. destruct v; try discriminate. apply (fb_head (SMap fs) 5); [reflexivity|lia].
   - intros alts IH _ v Hv. destruct v; try discriminate. cbn [enc wfv] in *.
-    destruct (IH i l Hv) as (b & t & -> & Hb). exists b, t. split; [reflexivity|exact Hb].
-  - intros lo s _ _ v Hv. destruct v; try discriminate. apply (fb_head (SArrOf lo s) 4). reflexivity.
-  - intros s _ _ v Hv. destruct v; try discriminate. apply (fb_head (SSetOf s) 6). reflexivity.
-  - intros lo sorted k _ v' _ _ v Hv. destruct v; try discriminate. apply (fb_head (SMapOf lo sorted k v') 5). reflexivity.
+    destruct (IH i l Hv) as (b & t & -> & Hb). exists b, t. split; [reflexivity|].
+    split; [intros m E; injection E as <-; exact Hb|]. intros _. rewrite Hb. lia.
+  - intros lo s _ _ v Hv. destruct v; try discriminate. apply (fb_head (SArrOf lo s) 4); [reflexivity|lia].
+  - intros s _ _ v Hv. destruct v; try discriminate. apply (fb_head (SSetOf s) 6); [reflexivity|lia].
+  - intros lo sorted k _ v' _ _ v Hv. destruct v; try discriminate. apply (fb_head (SMapOf lo sorted k v') 5); [reflexivity|lia].
   - (* SNullable *) intros s IH Hs v Hv. cbn [wfs] in Hs. apply andb_prop in Hs as [Hs _].
     destruct v; cbn [enc wfv] in Hv |- *;
-      try (destruct (IH Hs _ Hv) as (b' & t' & E & _); exists b', t'; split; [exact E|exact I]).
-    exists 246, []. split; reflexivity.
-  - intros t s _ _ v Hv. cbn [enc]. apply (fb_head (STag t s) 6). reflexivity.
-  - intros s _ _ v Hv. cbn [enc]. apply (fb_head (SInBytes s) 2). reflexivity.
+      try (destruct (IH Hs _ Hv) as (b' & t' & E & _); exists b', t'; split; [exact E|]; split; [discriminate|discriminate]).
+    exists 246, []. split; [reflexivity|]. split; discriminate.
+  - intros t s _ _ v Hv. cbn [enc]. apply (fb_head (STag t s) 6); [reflexivity|lia].
+  - intros s _ _ v Hv. cbn [enc]. apply (fb_head (SInBytes s) 2); [reflexivity|lia].
   - (* SChoice *) intros alts IH Hs v Hv. destruct v; try discriminate. cbn [enc wfv wfs] in *.
-    destruct (IH false Hs i v Hv) as (b & t & -> & _). exists b, t. split; [reflexivity|exact I].
+    destruct (IH false Hs i v Hv) as (b & t & -> & _ & Hd). exists b, t. split; [reflexivity|].
+    split; [discriminate|]. cbn [may_start7]. intros H7 E. rewrite E in Hd. rewrite (Hd eq_refl) in H7. discriminate.
   - intros alts IH Hs v Hv. destruct v; try discriminate. cbn [enc wfv wfs] in *.
-    destruct (IH true Hs i v Hv) as (b & t & -> & Hb). exists b, t. split; [reflexivity|apply Hb; reflexivity].
+    destruct (IH true Hs i v Hv) as (b & t & -> & Hb & _). exists b, t. split; [reflexivity|].
+    split; [intros m E; injection E as <-; apply Hb; reflexivity|]. intros _. rewrite (Hb eq_refl). lia.
+  - (* SArrAny *) intros s _ _ v Hv. destruct v as [| | | | | | | | | |i v]; try discriminate.
+    destruct i as [|[|i]]; destruct v; try discriminate; cbn [enc].
+    + apply (fb_head (SArrAny s) 4); [reflexivity|lia].
+    + eexists _, _. split; [reflexivity|]. split; [intros m E; injection E as <-; reflexivity|intros _; discriminate].
+  - (* SBBytes *) intros _ v Hv. destruct v; try discriminate. cbn [enc].
+    destruct (N.of_nat (length b) <=? 64).
+    + apply (fb_head SBBytes 2); [reflexivity|lia].
+    + eexists _, _. split; [reflexivity|]. split; [intros m E; injection E as <-; reflexivity|intros _; discriminate].
   - (* ANil *) intros i l H. discriminate.
   - (* ACons *) intros idx fs _ r IH i l H. cbn [wfv_vl enc_vl] in *. destruct i as [|i'].
     + destruct (encode_head_major 4 (1 + slen fs)) as (b & t & -> & Hb). eexists _, _. split; [reflexivity|exact Hb].
@@ -121,9 +135,13 @@ Proof.
     apply andb_prop in Hw as [Hw Hd]. apply andb_prop in Hw as [Hw Hr]. apply andb_prop in Hw as [Hs Hf].
     destruct i as [|i'].
     + destruct tagged.
-      * destruct (encode_head_major 6 d) as (b & t & -> & Hb). eexists _, _. split; [reflexivity|intros _; exact Hb].
-      * destruct (IHs Hs v H) as (b & t & -> & _). exists b, t. split; [reflexivity|discriminate].
-    + apply IHr; assumption.
+      * destruct (encode_head_major 6 d) as (b & t & -> & Hb). eexists _, _. split; [reflexivity|].
+        split; [intros _; exact Hb|discriminate].
+      * destruct (IHs Hs v H) as (b & t & -> & Hm & _). exists b, t. split; [reflexivity|]. split; [discriminate|].
+        intros _. destruct (first_major s) as [m|]; [|discriminate]. rewrite (Hm m eq_refl).
+        cbn [has_disc]. assert (m = d) by lia. subst m. rewrite N.eqb_refl. reflexivity.
+    + destruct (IHr tagged Hr i' v H) as (b & t & E & H6 & Hh). exists b, t. split; [exact E|]. split; [exact H6|].
+      intros Ht. cbn [has_disc]. rewrite (Hh Ht). apply orb_true_r.
 Qed.
 
 Lemma first_byte s v : wfs s = true -> wfv s v = true -> fb_ok s (enc s v).
@@ -131,6 +149,82 @@ Proof. intros Hs Hv. exact (proj1 first_byte_all s Hs v Hv). Qed.
 
 Lemma enc_nonempty s v : wfs s = true -> wfv s v = true -> (1 <= length (enc s v))%nat.
 Proof. intros Hs Hv. destruct (first_byte s v Hs Hv) as (b & t & -> & _). cbn. lia. Qed.
+
+Lemma enc_not_break s v : wfs s = true -> wfv s v = true -> may_start7 s = false ->
+  exists b t, enc s v = b :: t /\ b <> 255.
+Proof.
+  intros Hs Hv H7. destruct (first_byte s v Hs Hv) as (b & t & E & _ & Hn). exists b, t. split; [exact E|].
+  intros ->. apply (Hn H7). reflexivity.
+Qed.
+
+(* ---------- indefinite-length loops ---------- *)
+Lemma dec_until_break_roundtrip {A} (p : parser A) (e : A -> bytes) (l : list A) :
+  forall fuel rest,
+  (forall x r, In x l -> p (e x ++ r) = Ok (x, r)) ->
+  (forall x, In x l -> exists b t, e x = b :: t /\ b <> 255) ->
+  (length (concat (map e l)) < fuel)%nat ->
+  dec_until_break p fuel (concat (map e l) ++ 255 :: rest) = Ok (l, rest).
+Proof.
+  induction l as [|x t IH]; intros fuel rest H1 H2 Hf.
+  - destruct fuel as [|f]; [cbn in Hf; lia|]. cbn [map concat app dec_until_break].
+    change (255 =? 255) with true. reflexivity.
+  - destruct fuel as [|f]; [cbn in Hf; lia|].
+    cbn [map concat] in *. rewrite app_length in Hf.
+    destruct (H2 x (or_introl eq_refl)) as (b & tl & Ex & Hb).
+    rewrite <- app_assoc. cbn [dec_until_break].
+    remember (concat (map e t) ++ 255 :: rest) as tail eqn:Et.
+    assert (Hbs : e x ++ tail = b :: (tl ++ tail)) by (rewrite Ex; reflexivity).
+    rewrite Hbs. destruct (b =? 255) eqn:E255; [lia|]. rewrite <- Hbs.
+    rewrite H1 by (left; reflexivity). cbn [bind].
+    assert (Hlt : (length tail <? length (e x ++ tail))%nat = true).
+    { rewrite app_length, Ex. cbn [length]. apply Nat.ltb_lt. lia. }
+    rewrite Hlt. subst tail. rewrite IH; [reflexivity| | |].
+    + intros y r Hy. apply H1. right; exact Hy.
+    + intros y Hy. apply H2. right; exact Hy.
+    + rewrite Ex in Hf. cbn [length] in Hf. lia.
+Qed.
+
+(* fuel = length of the input + 1 is always enough: OutOfFuel is unreachable *)
+Lemma dec_until_break_fuel {A} (p : parser A) :
+  (forall bs, p bs <> OutOfFuel) ->
+  forall fuel bs, (length bs < fuel)%nat -> dec_until_break p fuel bs <> OutOfFuel.
+Proof.
+  intros Hp. induction fuel as [|f IH]; intros bs Hf; [lia|]. cbn [dec_until_break].
+  destruct bs as [|b r]; [discriminate|]. destruct (b =? 255); [discriminate|].
+  destruct (p (b :: r)) as [[x r']| | |] eqn:E; cbn [bind]; try discriminate; [|exfalso; exact (Hp _ E)].
+  destruct (length r' <? length (b :: r))%nat eqn:El; [|discriminate].
+  apply Nat.ltb_lt in El. specialize (IH r' ltac:(lia)).
+  destruct (dec_until_break p f r') as [[xs r'']| | |]; cbn [bind]; try discriminate. exact IH.
+Qed.
+
+Lemma chunk64_concat fuel : forall b, (length b <= fuel)%nat -> concat (chunk64 fuel b) = b.
+Proof.
+  induction fuel as [|f IH]; intros b Hb.
+  - destruct b; [reflexivity|cbn in Hb; lia].
+  - cbn [chunk64]. destruct b as [|x t] eqn:E; [reflexivity|]. rewrite <- E in *.
+    cbn [concat]. rewrite IH; [apply firstn_skipn|].
+    rewrite skipn_length. subst b. cbn [length] in *. lia.
+Qed.
+
+Lemma chunk64_bounds fuel : forall b c, In c (chunk64 fuel b) -> (1 <= length c <= 64)%nat.
+Proof.
+  induction fuel as [|f IH]; intros b c Hc; [destruct Hc|].
+  cbn [chunk64] in Hc. destruct b as [|x t] eqn:E; [destruct Hc|]. rewrite <- E in *.
+  destruct Hc as [<-|Hc]; [|exact (IH _ _ Hc)].
+  rewrite firstn_length. subst b. cbn [length]. lia.
+Qed.
+
+Lemma decode_head_indef_arr r : decode_head (159 :: r) = Some (4, Indef, r).
+Proof. reflexivity. Qed.
+Lemma decode_head_indef_bytes r : decode_head (95 :: r) = Some (2, Indef, r).
+Proof. reflexivity. Qed.
+
+Lemma dec_chunk_enc c r : (length c <= 64)%nat -> dec_chunk (enc_chunk c ++ r) = Ok (c, r).
+Proof.
+  intros Hc. unfold dec_chunk, enc_chunk. rewrite <- app_assoc.
+  rewrite dec_head_m_enc by (unfold two64; lia). cbn [bind].
+  destruct (N.of_nat (length c) <=? 64) eqn:E; [|lia]. apply take_bytes_app.
+Qed.
 
 (* ---------- map-struct helpers ---------- *)
 Lemma present_wf p s o :
@@ -197,7 +291,7 @@ Lemma roundtrip_all : (forall s, RT s) /\ (forall fs, RTs fs) /\ (forall fs, RTk
 Proof.
   apply schema_mutind; unfold RT, RTs, RTk, RTv, RTc.
   - (* SUint *) intros bits Hs v rest Hv. destruct v; try discriminate. cbn [enc dec wfv wfs] in *.
-    assert (n < two64) by (unfold two64; assert (2 ^ bits <= 2 ^ 64) by (apply N.pow_le_mono_r; lia); change (2^64) with 18446744073709551616 in *; lia).
+    assert (n < two64) by lia.
     rewrite dec_head_m_enc by assumption. cbn [bind]. rewrite Hv. reflexivity.
   - (* SNint *) intros _ v rest Hv. destruct v; try discriminate. cbn [enc dec wfv] in *.
     rewrite dec_head_m_enc by lia. reflexivity.
@@ -244,10 +338,10 @@ Proof.
     { intros v0 _. destruct v0; try (left; reflexivity). right; reflexivity. }
     destruct v; cbn [wfv] in Hv;
       try (cbn [enc dec];
-           destruct (first_byte s _ ltac:(assumption) Hv) as (b' & t' & E & Hb);
-           match goal with H : not_major7 s = true |- _ => unfold not_major7 in H; destruct (first_major s) as [m|]; [|discriminate] end;
+           destruct (first_byte s _ ltac:(assumption) Hv) as (b' & t' & E & _ & Hb);
+           match goal with H : negb (may_start7 s) = true |- _ => apply negb_true_iff in H; specialize (Hb H) end;
            rewrite E; cbn [app];
-           destruct (b' =? 246) eqn:E246; [assert (b' = 246) by lia; subst b'; change (246 / 32) with 7 in Hb; subst m; discriminate|];
+           destruct (b' =? 246) eqn:E246; [assert (b' = 246) by lia; subst b'; exfalso; apply Hb; reflexivity|];
            change (b' :: t' ++ rest) with ((b' :: t') ++ rest); rewrite <- E; apply IH; assumption).
     reflexivity.
   - (* STag *) intros t s IH Hs v rest Hv. cbn [enc dec wfv wfs] in *. split_and Hs.
@@ -262,6 +356,31 @@ Proof.
   - (* STagChoice *) intros alts IH Hs v rest Hv. destruct v; try discriminate. cbn [enc dec wfv wfs] in *.
     destruct (IH true Hs i v Hv) as (d & body & E & Hd & _ & _ & D). rewrite E.
     rewrite <- app_assoc. rewrite dec_head_m_enc by (apply Hd; reflexivity). cbn [bind]. rewrite D. reflexivity.
+  - (* SArrAny *) intros s IH Hs v rest Hv. cbn [wfs] in Hs. split_ands.
+    destruct v as [| | | | | | | | | |i v]; try discriminate.
+    destruct i as [|[|i]]; destruct v; try discriminate; cbn [enc dec wfv] in *.
+    + split_ands. rewrite <- app_assoc. rewrite decode_encode_head by lia. rewrite N.eqb_refl.
+      rewrite dec_counted_roundtrip; [reflexivity| |].
+      * intros x r Hx. apply IH; [assumption|]. eapply forallb_In; eassumption.
+      * intros x Hx. apply enc_nonempty; [assumption|]. eapply forallb_In; eassumption.
+    + cbn [app]. rewrite decode_head_indef_arr. rewrite N.eqb_refl. rewrite <- app_assoc. cbn [app].
+      rewrite dec_until_break_roundtrip; [reflexivity| | |].
+      * intros x r Hx. apply IH; [assumption|]. eapply forallb_In; eassumption.
+      * intros x Hx. apply enc_not_break; [assumption| |].
+        -- eapply forallb_In; eassumption.
+        -- match goal with H : negb (may_start7 s) = true |- _ => apply negb_true_iff in H; exact H end.
+      * rewrite app_length. cbn [length]. lia.
+  - (* SBBytes *) intros _ v rest Hv. destruct v; try discriminate. cbn [enc dec].
+    destruct (N.of_nat (length b) <=? 64) eqn:E64.
+    + rewrite <- app_assoc. rewrite decode_encode_head by (unfold two64; lia). rewrite N.eqb_refl, E64. cbn [andb].
+      rewrite take_bytes_app. reflexivity.
+    + cbn [app]. rewrite decode_head_indef_bytes. rewrite N.eqb_refl. rewrite <- app_assoc. cbn [app].
+      rewrite dec_until_break_roundtrip.
+      * cbn [bind]. rewrite chunk64_concat by lia. reflexivity.
+      * intros c r Hc. apply dec_chunk_enc. apply (chunk64_bounds _ _ _ Hc).
+      * intros c Hc. unfold enc_chunk. destruct (encode_head_major 2 (N.of_nat (length c))) as (b0 & t0 & -> & Hb0).
+        exists b0, (t0 ++ c). split; [reflexivity|]. intros ->. discriminate.
+      * rewrite app_length. cbn [length]. lia.
   - (* SNil *) intros _ l rest Hv. destruct l; [reflexivity|discriminate].
   - (* SCons *) intros s IHs r IHr Hw l rest Hv. cbn [wfs_sl] in Hw. split_and Hw.
     destruct l as [|v t]; [discriminate|]. cbn [wfv_sl enc_sl dec_sl] in *. split_and Hv.
@@ -307,8 +426,8 @@ Proof.
     cbn [wfv_cl enc_cl] in *. destruct i as [|i'].
     + exists d, (enc s v). repeat split.
       * intros ->. lia.
-      * intros ->. destruct (first_byte s v ltac:(assumption) Hv) as (b & t & E & Hb).
-        destruct (first_major s) as [m|]; [|discriminate]. exists b, t. split; [exact E|]. lia.
+      * intros ->. destruct (first_byte s v ltac:(assumption) Hv) as (b & t & E & Hb & _).
+        destruct (first_major s) as [m|]; [|discriminate]. specialize (Hb m eq_refl). exists b, t. split; [exact E|]. lia.
       * intros e He. cbn [disc_fresh] in He. apply andb_prop in He as [He _]. apply negb_true_iff in He. rewrite N.eqb_sym. exact He.
       * intros rest pos. cbn [dec_cl]. rewrite N.eqb_refl. rewrite IHs by assumption. cbn [bind].
         rewrite Nat.add_0_r. reflexivity.
